@@ -4,7 +4,7 @@
 //! case line (after the id):
 //!   pattern  level  message  target  module?  file?  line?  thread-name?  mdc(k;v,…)
 //! observation (one field; parts separated by a single space):
-//!   outcome  ops  debug-profile  pid  tid  masked  dates(fmt;utc;ok;text,…)
+//!   outcome  ops  debug-profile  pid  tid  masked  dates(fmt;utc;render-ok;probe-ok;text,…)
 //! outcome = ok | err | new-only | PANIC:new | PANIC:encode | unstable-date
 //! ops     = items joined by `,` : `T<string>` text run, `S<fg>/<bg>/<intense>` set_style; `-` when
 //!           nothing was encoded to the end.
@@ -376,6 +376,17 @@ fn chrono_render(fmt: &str, utc: bool) -> (bool, String) {
     }
 }
 
+/// the trial rendering `From<Piece> for Chunk` does at construction (commit ea62e36): always with
+/// `Utc::now()`, whatever the zone argument says
+pub fn probe_ok(fmt: &str) -> bool {
+    use std::fmt::Write;
+    guarded(AssertUnwindSafe(|| {
+        let mut probe = String::new();
+        write!(probe, "{}", chrono::Utc::now().format(fmt)).is_ok()
+    }))
+    .unwrap_or(false)
+}
+
 fn render_all(fmts: &[String]) -> Vec<(String, bool, bool, String)> {
     let mut v = vec![];
     for f in fmts {
@@ -506,7 +517,7 @@ fn run_in_thread(c: &Case) -> String {
             .iter()
             .map(|(f, utc, ok, t)| {
                 let t = if masked { mask_digits(t) } else { t.clone() };
-                format!("{};{};{};{}", enc_str(f), enc_bool(*utc), enc_bool(*ok), enc_str(&t))
+                format!("{};{};{};{};{}", enc_str(f), enc_bool(*utc), enc_bool(*ok), enc_bool(probe_ok(f)), enc_str(&t))
             })
             .collect();
         format!("{} {} {} {} {}", enc_bool(debug), pid, tid, enc_bool(masked), enc_list(",", &ds))
